@@ -9,6 +9,7 @@ import (
 	"encoding/json"
 	"errors"
 	"fmt"
+	"github.com/opencontainers/go-digest"
 	"io"
 	"os"
 	"path/filepath"
@@ -44,8 +45,19 @@ func (o Op) Str(d *DAG) string {
 		return "tag(" + n + "," + o.Ref + ")"
 	case "untag", "resolve":
 		return o.Kind + "(" + o.Ref + ")"
+	case "pushbad":
+		return "push(bytes that are not JSON, under the image-manifest media type)"
 	}
 	return o.Kind
+}
+
+// BadManifest is content whose descriptor is right (digest, size) and names a manifest media type,
+// while the bytes are not a manifest at all: a push of it has to be refused without leaving traces
+// that break the layout.
+var BadManifestBytes = []byte("this is not JSON")
+
+func BadManifestDesc() ocispec.Descriptor {
+	return ocispec.Descriptor{MediaType: ocispec.MediaTypeImageManifest, Digest: digest.FromBytes(BadManifestBytes), Size: int64(len(BadManifestBytes))}
 }
 
 // ErrClass maps an error to the class the properties talk about.
@@ -95,6 +107,8 @@ func ApplyOCI(st *oci.Store, d *DAG, op Op) error {
 	case "push":
 		n := d.Nodes[op.Node]
 		return st.Push(ctx, n.Desc, bytes.NewReader(n.Bytes))
+	case "pushbad":
+		return st.Push(ctx, BadManifestDesc(), bytes.NewReader(BadManifestBytes))
 	case "tag":
 		return st.Tag(ctx, TagDesc(d, op.Node, op.Ann), op.Ref)
 	case "untag":
